@@ -28,26 +28,9 @@ type c03Op struct {
 }
 
 func (C03) Gen(rng *core.Rng, tier string, idx int) *core.Scenario {
-	assets := refAssets(hx.BundledAssets)
-	var ar assetRef
-	var a *refmodel.Asset
-	var reps []string
-	for {
-		ar = core.Pick(rng, bundledMPDs)
-		a = assets[ar.Asset]
-		reps = reps[:0]
-		if a.Ref().ContentType != "video" {
-			continue
-		}
-		for _, id := range a.RepIDs() {
-			if a.Reps[id].ContentType == "audio" {
-				reps = append(reps, id)
-			}
-		}
-		if len(reps) > 0 {
-			break
-		}
-	}
+	w, a, reps := c01PickWorld(rng, func(a *refmodel.Asset, r *refmodel.Rep) bool {
+		return r.ContentType == "audio" && a.Ref().ContentType == "video"
+	})
 	repID := core.Pick(rng, reps)
 	ref := a.Ref()
 	base := int64(1_600_000_000_000) + rng.Int63n(300_000_000_000)
@@ -57,9 +40,13 @@ func (C03) Gen(rng *core.Rng, tier string, idx int) *core.Scenario {
 	case 1:
 		base = int64(1)<<40 + rng.Int63n(int64(1)<<40)
 	}
+	// segment numbers must fit the 32-bit mfhd sequence number (short generated segments!)
+	if maxBase := int64(1<<31) * a.SegDurMS; base > maxBase {
+		base = rng.Int63n(maxBase)
+	}
 	cfg := genTimelineCfg(rng, a, base)
 	cfg.Ato = ""
-	w := c01World{VodRoot: "bundled", Asset: ar.Asset, Cfg: cfg, Rep: repID}
+	w.Cfg, w.Rep = cfg, repID
 	sc := core.NewScenario("C03", "tlsim", 0, tier, w)
 	N := int64(len(ref.Segs))
 	rel := base - cfg.AST()*1000
@@ -118,7 +105,7 @@ func (C03) Run(t *testing.T, sc *core.Scenario, res *core.Result) {
 	if err != nil {
 		panic(err)
 	}
-	root := vodRootOf(w.VodRoot)
+	root := w.root()
 	a := refAssets(root)[w.Asset]
 	if a == nil || a.Reps[w.Rep] == nil {
 		panic("harness: unknown asset/rep")
@@ -152,7 +139,7 @@ func (C03) Run(t *testing.T, sc *core.Scenario, res *core.Result) {
 	case vodAudioDur > loopA:
 		audioLoop = "longer"
 	}
-	feat := merge(cfg.Features(a), assetTraits(a), core.Sig("content", "audio", "audioloop", audioLoop))
+	feat := merge(cfg.Features(a), assetTraits(a), core.Sig("content", "audio", "audioloop", audioLoop, "world", w.VodRoot))
 	type seen struct{ start, end uint64 }
 	hist := map[int64]seen{}
 	var simLo, simHi int64
